@@ -278,7 +278,9 @@ func (c *Conn) processEncryptedClientHello(h *clientHello, isRetry bool) (*clien
 		eoeSeen = true
 		s := cryptobyte.String(ext.Data)
 		var want cryptobyte.String
-		if !s.ReadUint8LengthPrefixed(&want) {
+		// OuterExtensions<2..254>: a non-empty list of 16-bit types and
+		// nothing else.
+		if !s.ReadUint8LengthPrefixed(&want) || !s.Empty() || len(want) == 0 || len(want)%2 != 0 {
 			return nil, ErrDecodeError
 		}
 		// Appendix B. Linear-time Outer Extension Processing
